@@ -174,15 +174,29 @@ def data_by_marker(ws):
 def presented_statepoints(job):
     """Every state point value the handle is willing to present, asked through each accessor and asked again
     after a refusal: a handle that raised once must not hand out an unvalidated value on the next access."""
+    import pickle
+
     out = []
-    for rnd in range(2):
-        for how, get in (("statepoint()", lambda: model.plain(job.statepoint())),
-                         ("cached_statepoint", lambda: model.plain(dict(job.cached_statepoint))),
-                         ("sp", lambda: model.plain(dict(job.sp)))):
+
+    def ask(h, tag):
+        for how, get in (("statepoint()", lambda: model.plain(h.statepoint())),
+                         ("cached_statepoint", lambda: model.plain(dict(h.cached_statepoint))),
+                         ("sp", lambda: model.plain(dict(h.sp)))):
             try:
-                out.append((f"{how}#{rnd}", get()))
+                out.append((f"{how}#{tag}", get()))
             except Exception:
                 pass
+
+    for rnd in range(2):
+        ask(job, rnd)
+    # ... nor may a copy of the handle taken after the refusal (handed to a worker, say) present one
+    for tag, dup in (("pickle", lambda: pickle.loads(pickle.dumps(job))), ("copy", lambda: copy.copy(job)),
+                     ("deepcopy", lambda: copy.deepcopy(job))):
+        try:
+            h = dup()
+        except Exception:
+            continue
+        ask(h, tag)
     return out
 
 
